@@ -1,4 +1,5 @@
 """C07 — collectives and MPI marshalling reproduce the rank-order fold / the originals."""
+from translators import tr_c07
 
 PID = "C07"
 CLAIM = True
@@ -20,6 +21,7 @@ MANIFEST_NOTE = ("Partial: MPI itself is trusted (a transfer moves the typemap's
                  "<=5).  The sequential stand-in copies whole objects where MPI copies only the communicated members "
                  "(IndexPair, ParallelLocalIndex): agreement is claimed and checked on the communicated state.")
 TECHNIQUE = "Lean 4 proof over cell-level model of typemaps, collectives and MPIPack + MPI differential correspondence with a fold oracle"
+TRANSLATORS = [tr_c07.translate]
 HARNESS = dict(
     sources=["mpi_c07.cc", "pmpi_sched.cc"],
     mpi=True,
